@@ -254,6 +254,23 @@ def run(ctx):
     P = ctx.prog
     # ------------------------------------------------------------ R1 who-may-call
     found = {k: 0 for k in SINKS}
+    from ..inline import known_functions
+    kf = (known_functions() or (set(), set()))[0]
+    callers_of = {}
+    for f in P.fns.values():
+        for i in f.calls():
+            callers_of.setdefault(f.callee(i), set()).add(owner(P, f))
+
+    def allowed(c, own, depth=0):
+        """own may call sink c: it is in the table; or a wrapper from the table was inlined into a function that may call that wrapper;
+        or own is a function that does not exist on the reference tree (an extracted helper) and everything that calls it may call c"""
+        if own in SINKS[c]:
+            return True
+        if any(own in SINKS.get(w, ()) for w in SINKS[c]):
+            return True
+        if depth < 3 and kf and own not in kf and callers_of.get(own):
+            return all(allowed(c, o2, depth + 1) for o2 in callers_of[own])
+        return False
     for f in P.fns.values():
         for i in f.calls():
             c = f.callee(i)
@@ -261,7 +278,7 @@ def run(ctx):
                 continue
             found[c] += 1
             own = owner(P, f)
-            ok = own in SINKS[c]
+            ok = allowed(c, own)
             if ok:
                 ctx.ok("who-may-call:%s:%s" % (c, own.replace("Oomd::", "")), "who-may-call", f.loc(i),
                        "%s called from %s" % (c, own))
